@@ -108,10 +108,13 @@ func (cv0 *HookConfigV0) ConvertAndCheck(c *HookConfig) error {
 		}
 		monitor.WithLabelSelector(kubeCfg.Selector)
 		monitor.JqFilter = kubeCfg.JqFilter
+		// v0 has no keepFullObjectsInMemory option: keep full objects (the default), MapV0 reads them.
+		monitor.KeepFullObjectsInMemory = true
 
 		kubeConfig := htypes.OnKubernetesEventConfig{}
 		kubeConfig.Monitor = monitor
 		kubeConfig.AllowFailure = kubeCfg.AllowFailure
+		kubeConfig.KeepFullObjectsInMemory = true
 		if kubeCfg.Name == "" {
 			kubeConfig.BindingName = "onKubernetesEvent"
 		} else {
